@@ -7,7 +7,7 @@
      vsize_now f cs  virtual_size right after the last chunk of cs  (a prefix of a longer presentation)
    wf_<fmt> are boolean predicates on the bytes (Model/C07.v), written with the literal offsets of the formats. *)
 Require Import OV.Base.Bytes OV.Base.Py OV.Gen.Insp_Consts OV.Model.Insp_All OV.Model.C07.
-Require Import OV.Proofs.C07_Static.
+Require Import OV.Proofs.C07_Static OV.Proofs.C07_Vmdk.
 Open Scope N_scope.
 
 (* ---------------- qcow2 ---------------- *)
@@ -82,3 +82,32 @@ Theorem vsize_gpt_wellformed : forall cs,
   quiet F_gpt cs /\ vsize_now F_gpt cs = Ok (Z.of_N (blen (concat cs))) /\ vsize_end F_gpt cs = Ok (Z.of_N (blen (concat cs))).
 Proof. exact vsize_gpt_lemma. Qed.
 Print Assumptions vsize_gpt_wellformed.
+
+(* ---------------- VMDK (hosted sparse extent: monolithicSparse / streamOptimized) ----------------
+   wf_vmdk sectors version desc_num b: 'KDMV', version in 1..3, capacity [sectors], descriptor at sector 1 of [desc_num] >= 1
+   sectors (the inspector looks at min(desc_num*512, 2^20-1) bytes of it), the descriptor text (up to its first NUL) is
+   ASCII and its first createType="..." names one of the two sparse subformats; the stream contains header and
+   descriptor.  Any grain-directory offset, i.e. with or without the footer region. *)
+Theorem vsize_vmdk_wellformed : forall sectors version desc_num b cs,
+  sectors < 2 ^ 64 -> desc_num < 2 ^ 64 -> wf_vmdk sectors version desc_num b = true -> concat cs = b ->
+  quiet F_vmdk cs /\ vsize_end F_vmdk cs = Ok (Z.of_N (sectors * 512)).
+Proof. exact vsize_vmdk_wellformed_lemma. Qed.
+Print Assumptions vsize_vmdk_wellformed.
+
+(* every chunking of every prefix of a well-formed image that stops before the end of the descriptor: 0 *)
+Theorem vsize_zero_while_unknown_vmdk : forall w sectors version desc_num cs,
+  sectors < 2 ^ 64 -> desc_num < 2 ^ 64 -> wf_vmdk sectors version desc_num w = true ->
+  is_prefix (concat cs) w = true -> blen (concat cs) < vmdk_known_at desc_num ->
+  quiet F_vmdk cs /\ vsize_now F_vmdk cs = Ok 0%Z /\ vsize_end F_vmdk cs = Ok 0%Z.
+Proof. exact vsize_zero_while_unknown_vmdk_lemma. Qed.
+Print Assumptions vsize_zero_while_unknown_vmdk.
+
+(* and the exact value at every prefix: 0 before header + descriptor have been presented, the declared size from then on *)
+Theorem vsize_vmdk_at_every_prefix : forall w sectors version desc_num cs,
+  sectors < 2 ^ 64 -> desc_num < 2 ^ 64 -> wf_vmdk sectors version desc_num w = true ->
+  is_prefix (concat cs) w = true ->
+  quiet F_vmdk cs /\
+  vsize_now F_vmdk cs = (if blen (concat cs) <? vmdk_known_at desc_num then Ok 0%Z else Ok (Z.of_N (sectors * 512))) /\
+  vsize_end F_vmdk cs = (if blen (concat cs) <? vmdk_known_at desc_num then Ok 0%Z else Ok (Z.of_N (sectors * 512))).
+Proof. exact vsize_vmdk_prefix_lemma. Qed.
+Print Assumptions vsize_vmdk_at_every_prefix.
